@@ -342,7 +342,7 @@ func (g *gen) subQuery(tags []string) *slib.Node {
 	}
 	// terms relating the main stream to the sub-query's stream
 	offs := []int64{0, 0, 0, 1, -1, 2, -2, 7, -7, 3600, -3600}
-	rel := func() *slib.Node {
+	rel := func(mayMixConstants bool) *slib.Node {
 		switch r.Intn(8) {
 		case 0, 1, 2, 3: // times
 			key := lib.Pick(r, []string{"ftime", "ltime", "time", "ftime", "ltime"})
@@ -377,7 +377,10 @@ func (g *gen) subQuery(tags []string) *slib.Node {
 			return &slib.Node{Op: "term", Key: key, Nums: []slib.Range{rg}}
 		case 6:
 			ps := []string{"@" + sq + ":protocol@"}
-			if r.Chance(1, 4) {
+			// a constant next to the variable makes an alternative of the normal form that does NOT refer to the
+			// sub-query; the engine does not evaluate a sub-query nobody refers to, and what such a query should
+			// mean is not defined: only the additional relating term may mix
+			if mayMixConstants && r.Chance(1, 4) {
 				ps = append(ps, "udp")
 			}
 			return &slib.Node{Op: "term", Key: "protocol", Protos: ps}
@@ -389,13 +392,13 @@ func (g *gen) subQuery(tags []string) *slib.Node {
 			return &slib.Node{Op: "term", Key: lib.Pick(r, []string{"chost", "shost", "host"}), Hosts: []slib.HostPat{h}}
 		}
 	}
-	top := rel()
+	top := rel(false)
 	if r.Chance(1, 6) {
 		top = &slib.Node{Op: "not", Kids: []*slib.Node{top}}
 	}
 	kids = append(kids, top)
 	if r.Chance(1, 3) {
-		x := rel()
+		x := rel(true)
 		if r.Chance(1, 3) {
 			x = &slib.Node{Op: "or", Kids: []*slib.Node{x, g.term(nil, false)}}
 		}
